@@ -30,6 +30,7 @@ CATEGORY = {
     "PANIC_NOT_TLA_ERROR": "panic-not-tla-error",
     "HANG": "hang",
     "UNEVALUABLE": "wrong-value",
+    "CHOOSE_ORDER_DEPENDENT": "choose-order-dependent",
 }
 NO_TLC_CONFIRM = {"SelectOOR"}  # range contract of the library's `with x \in S` helper, no TLA+ expression
 
